@@ -348,6 +348,15 @@ def parse_data_ints(il):
 
 EXTRA_CLI = [
     # (source, expected list of (name, value)) hand-written disambiguation cases
+    # a block-scope function declaration hides an object or parameter of an enclosing block; a parenthesised parameter name that
+    # shadows an enumerator is a name, one that is a typedef name is a type; a tag declared in the body of a for statement hides
+    # the tag declared in its clauses
+    ('int f(int); int g(int f) { { int f(int); return f(1); } } int h(void) { int f = 2; { { extern int f(int); return f(f(3)); } } }\n'
+     'enum { N = 3 }; typedef int T; int p(int (N)) { return N + 1; } int q(int (T));\n'
+     'static int chk_a = _Generic(p, int (*)(int): 1, default: 0), chk_b = _Generic(q, int (*)(int (*)(int)): 1, default: 0), chk_c = N;\n'
+     'int r(void) { int r = 0; for (int i = 0; i < (int)sizeof(struct Tg { char c[2]; }); ++i) r += (int)sizeof(struct Tg { char c[16]; }); return r; }\n'
+     'int r2(void) { int r = 0; while (r < (int)sizeof(union Ug { char c[3]; })) r += (int)sizeof(union Ug { char c[5]; }); return r; }\n',
+     [('chk_a', 1), ('chk_b', 1), ('chk_c', 3)]),
     # `struct S;` / `union U;` alone in an inner scope declares a new type that hides the outer one (6.7.2.3p7)
     ('struct S { int a; }; union U { char c; short s; };\n'
      'void f(void) { struct S; struct S *p; union U; union U *q; struct S { long x, y; }; union U { long double d; };\n'
